@@ -136,6 +136,11 @@ fn find_inv_error_locations_levinson_durbin(syn: &[GF]) -> Result<Vec<GF>, Error
 
     // find smallest v such that H_v is nonsingular
     let mut v = syn.iter().take_while(|s| **s == GF(0)).count() + 1;
+    if v > t {
+        // At least t leading syndromes are zero but not all of them, no
+        // error pattern of weight <= t has such syndromes.
+        return Err(ErrorDecodingError::TooManyErrors);
+    }
 
     // initialize y = [1/b_v, 0, ..., 0]
     let mut y = Vec::with_capacity(t);
